@@ -920,7 +920,7 @@ namespace
         std::vector<std::string> samples, errors;
         long                     n_ops_cases = 0, n_typed_cases = 0, n_pair_cases = 0, n_seq_cases = 0,
              n_single_cases = 0, n_comps = 0, n_paramsets = 0, n_fail_legit = 0, n_full_events = 0,
-             n_refused = 0, n_trk = 0, n_moves = 0, n_try_cases = 0, n_aborted = 0;
+             n_refused = 0, n_trk = 0, n_moves = 0, n_try_cases = 0, n_aborted = 0, n_mr_cases = 0;
 
         void note(const verdict& v, const std::string& input)
         {
@@ -1232,6 +1232,51 @@ namespace
                 seq_dfs(c, p, use_try != 0, alpha, seq, 0, seq_depth, 0);
             }
         }
+        // memory_resource_adapter splits requests above max_node_size() of what it wraps into arrays of
+        // max-sized nodes: sweep every byte count up to 6*max+3 for wrapped maxima that are / are not powers of two
+        if (c.name.find("MR(") != std::string::npos)
+            for (const params& p0 : make_paramsets(c, false))
+            {
+                if (p0.capset != 0)
+                    continue;
+                for (std::size_t mx : {8, 16, 24, 40, 48, 100})
+                {
+                    params p   = p0;
+                    p.max_node = mx;
+                    limits l   = query_limits(c, p);
+                    if (!l.ok)
+                        continue;
+                    for (int use_try = 0; use_try <= (c.composable ? 1 : 0); ++use_try)
+                        for (std::size_t a : {1, 8, 64})
+                        {
+                            if (a > l.max_align)
+                            {
+                                ++R.excluded;
+                                continue;
+                            }
+                            op seq[4];
+                            for (std::size_t bytes = 1; bytes <= 6 * mx + 3; ++bytes)
+                            {
+                                if (bytes <= l.max_node)
+                                {
+                                    seq[0] = {OP_NODE, 0, 1, bytes, a};
+                                    seq[1] = {OP_REL, 0, 0, 0, 0};
+                                    eval_ops(c, p, use_try != 0, seq, 2);
+                                    ++R.n_mr_cases;
+                                }
+                                else
+                                    ++R.excluded;
+                                if (bytes % 2 == 0 && bytes <= l.max_array)
+                                {
+                                    seq[0] = {OP_ARRAY, 0, 2, bytes / 2, a};
+                                    seq[1] = {OP_REL, 0, 0, 0, 0};
+                                    eval_ops(c, p, use_try != 0, seq, 2);
+                                    ++R.n_mr_cases;
+                                }
+                            }
+                        }
+                }
+            }
         // typed helpers
         if (!c.typed.empty())
             for (const params& p : make_paramsets(c, true))
@@ -1466,6 +1511,7 @@ int main(int argc, char** argv)
         .num("pair_cases", R.n_pair_cases)
         .num("sequence_cases", R.n_seq_cases)
         .num("typed_helper_cases", R.n_typed_cases)
+        .num("memory_resource_sweep_cases", R.n_mr_cases)
         .num("composable_interface_cases", R.n_try_cases)
         .num("move_operations", R.n_moves)
         .num("leaf_full_events", R.n_full_events)
@@ -1484,7 +1530,7 @@ int main(int argc, char** argv)
              "every ordered pair (any shape, " + std::string(thorough ? "any shape with alignment 1/8/64/max" : "one of the 7 alphabet shapes") + ") released in both orders; every operation sequence up to depth "
              + std::to_string(thorough ? 4 : 3)
              + " over {7 request shapes, release k-th oldest, move-construct, move-assign, try-release of a "
-               "foreign block}; typed helpers (incl. element types whose constructor throws) x value types x n 1/2/5. A case class is the sequence of "
+               "foreign block}; for compositions containing memory_resource_adapter: every byte count 1..6*max+3 (node, and as array of 2) for wrapped max_node_size 8/16/24/40/48/100 x alignment 1/8/64; typed helpers (incl. element types whose constructor throws) x value types x n 1/2/5. A case class is the sequence of "
                "(operation kind, success, serving leaf position, refusals); distinct_nontrivial counts the "
                "distinct classes that reached the oracle")
         .raw("samples", samples.done())
